@@ -247,6 +247,14 @@ func RunCheck(opts CheckOpts) *CheckReport {
 			patterns[p] = true
 		}
 	}
+	for _, pp := range cs.PkgNeeds[opts.Prop] {
+		rel := strings.TrimPrefix(strings.TrimPrefix(pp, cadenceMod), "/")
+		if rel == "" {
+			patterns["."] = true
+		} else {
+			patterns["./"+rel] = true
+		}
+	}
 	// always load the packages of all contract files that the property's functions may call into
 	var pats []string
 	for p := range patterns {
